@@ -128,16 +128,18 @@ def digest(b) -> str:
 
 
 # ---------------------------------------------------------------- NaN-aware structural equality of parsed JSON
-def json_same(a, b) -> bool:
-    """Equality of parsed JSON values including the int/float distinction and NaN == NaN, key order of objects."""
+def json_same(a, b, ordered=True) -> bool:
+    """Equality of parsed JSON values including the int/float distinction and NaN == NaN; key order of objects
+    matters unless ordered=False."""
     if type(a) is not type(b):
         return False
     if isinstance(a, float):
         return (math.isnan(a) and math.isnan(b)) or (a == b and math.copysign(1, a) == math.copysign(1, b))
     if isinstance(a, list):
-        return len(a) == len(b) and all(json_same(x, y) for x, y in zip(a, b))
+        return len(a) == len(b) and all(json_same(x, y, ordered) for x, y in zip(a, b))
     if isinstance(a, dict):
-        return list(a.keys()) == list(b.keys()) and all(json_same(a[k], b[k]) for k in a)
+        same_keys = list(a.keys()) == list(b.keys()) if ordered else sorted(a.keys()) == sorted(b.keys())
+        return same_keys and all(json_same(a[k], b[k], ordered) for k in a)
     return a == b
 
 
@@ -156,6 +158,15 @@ def stringify(x):
     if isinstance(x, Path):
         return str(x)
     return repr(x)
+
+
+def expected_metadata(ns):
+    """What the property promises to find as metadata, computed from the Namespace itself (not through
+    Output.metadata, which is code under test): every argument except func, stringified, plus run_type."""
+    d = dict(vars(ns))
+    func = d.pop("func")
+    d["run_type"] = "eval" if "eval" in repr(func) else "learn"
+    return stringify(d)
 
 
 # ---------------------------------------------------------------- spec-driven objects
